@@ -98,6 +98,12 @@ def run(ctx):
             # indexing
             keys = [int(rng.integers(0, N)), np.int64(rng.integers(0, N)), slice(0, max(1, N // 2)),
                     slice(None, None, 2), rng.random(N) < 0.5, rng.choice(N, size=min(N, 5), replace=False)]
+            if N <= 200:
+                # plain Python sequences as keys
+                mk = (rng.random(N) < 0.5)
+                if not mk.any():
+                    mk[0] = True
+                keys += [[bool(x) for x in mk], [int(x) for x in rng.choice(N, size=min(N, 4), replace=False)]]
             for k in keys:
                 if isinstance(k, np.ndarray) and k.dtype == bool and not k.any():
                     k[0] = True
